@@ -12,6 +12,8 @@ def write_cfg(path, template, invariants, switches=None):
     s = re.sub(r"(?m)^INVARIANTS.*$", "INVARIANTS " + invariants, s)
     for k, v in (switches or {}).items():
         s = re.sub(r"(?m)^(\s*%s\s*=\s*)(TRUE|FALSE)" % re.escape(k), r"\g<1>" + ("TRUE" if v else "FALSE"), s)
+    on = sorted(k for k, v in (switches or {}).items() if v)
+    s = re.sub(r"(?m)^(\s*KF\s*=\s*)\{[^}]*\}", r"\g<1>{" + ", ".join('"%s"' % k for k in on) + "}", s)
     open(path, "w").write(s)
     return path
 
